@@ -538,7 +538,7 @@ theorem FullShape.perm {fcp : Option Nat} {rest : List (Node V)} {pn : Node V}
   · exact insertAt_perm _ _ _
   · exact List.perm_append_singleton _ _
 
-/-- Evicting a disconnected head and admitting the pending node keeps the node-list invariant. -/
+/-- Evicting a disconnected head and letting the pending node in keeps the node-list invariant. -/
 theorem fullShape_ninv {c : Cfg V} {tick : Nat} {n0 : Node V} {rest : List (Node V)}
     {fcp : Option Nat} {pn : Node V} {nodes' : List (Node V)} {fcp' : Option Nat}
     (hn : NInv c tick (n0 :: rest) fcp) (h0 : n0.st.conn = false)
@@ -760,7 +760,7 @@ theorem init_tinv (c : Cfg V) (localKey : Nat) : TInv c (Table.init localKey : T
 
 /-! ### removal of a node -/
 
-theorem position_some {b : Bucket V} {key pos : Nat} (h : b.position key = some pos) :
+theorem Bucket.position_some {b : Bucket V} {key pos : Nat} (h : b.position key = some pos) :
     ∃ old, b.nodes[pos]? = some old ∧ old.key = key := by
   unfold Bucket.position at h
   rw [List.findIdx?_eq_some_iff_getElem] at h
@@ -815,7 +815,7 @@ theorem remove_inv {c : Cfg V} {now tick : Nat} {b : Bucket V} {key : Nat} (hb :
   cases hpos : b.position key with
   | none => exact hb
   | some pos =>
-    obtain ⟨old, hold, _⟩ := position_some hpos
+    obtain ⟨old, hold, _⟩ := Bucket.position_some hpos
     exact applyPending_inv c now tick _ (removed_inv hb hold)
 
 theorem remove_keys {c : Cfg V} {now tick : Nat} {b : Bucket V} {key : Nat} {P : Nat → Prop}
@@ -906,7 +906,7 @@ theorem updateStatus_inv {c : Cfg V} {now tick : Nat} {b : Bucket V} {key : Nat}
       cases hp'
       exact hb.pendingFresh p hp
   | some pos =>
-    obtain ⟨old, hold, _⟩ := position_some hpos
+    obtain ⟨old, hold, _⟩ := Bucket.position_some hpos
     rw [(updateStatus_some hpos hold).1]
     exact insert_inv (usBucket_inv hb hold) rfl
 
@@ -924,7 +924,7 @@ theorem updateStatus_keys {c : Cfg V} {now tick : Nat} {b : Bucket V} {key : Nat
       cases hp'
       exact hb.2 p hp
   | some pos =>
-    obtain ⟨old, hold, _⟩ := position_some hpos
+    obtain ⟨old, hold, _⟩ := Bucket.position_some hpos
     rw [(updateStatus_some hpos hold).1]
     exact insert_keys (usBucket_keys hb) (hb.1 old (List.mem_of_getElem? hold))
 
@@ -960,7 +960,7 @@ theorem updateStatus_ne_panic {c : Cfg V} {now tick : Nat} {b : Bucket V} {key :
   cases hpos : b.position key with
   | none => exact (updateStatus_none hpos).2
   | some pos =>
-    obtain ⟨old, hold, _⟩ := position_some hpos
+    obtain ⟨old, hold, _⟩ := Bucket.position_some hpos
     exact (updateStatus_some hpos hold).2 (usInsert_ok hb hold)
 
 /-! ### `updateValue` -/
@@ -1068,7 +1068,7 @@ theorem updateValue_cases (c : Cfg V) (b : Bucket V) (key : Nat) (value : V) :
   unfold UpdateValueSpec Bucket.updateValue
   cases hpos : b.position key with
   | some pos =>
-    obtain ⟨node, hnode, _⟩ := position_some hpos
+    obtain ⟨node, hnode, _⟩ := Bucket.position_some hpos
     simp only [hnode]
     by_cases hv : node.value = value
     · rw [if_pos hv]; simp
